@@ -89,6 +89,16 @@ func (q *UdpTaskQueue) popOverflowTask() (UdpTask, bool) {
 	q.enqueueMu.Lock()
 	defer q.enqueueMu.Unlock()
 
+	// Producers may have filled the channel (and spilled into the overflow FIFO)
+	// after the caller found it empty. Whatever is in the channel was accepted
+	// before anything in the FIFO, so it has to run first; enqueueMu keeps
+	// producers out while we look.
+	select {
+	case task := <-q.ch:
+		return task, true
+	default:
+	}
+
 	if len(q.overflow) == 0 {
 		q.overflowMode = false
 		return nil, false
